@@ -103,7 +103,7 @@ func runC06(c *kit.Ctx) {
 				return
 			}
 			ev := returnedError(r)
-			if ev == nil || !kit.IsNilConst(kit.Root(ev)) || kit.IsNilConst(kit.Root(r.Results[0])) {
+			if ev == nil || !kit.IsNilConst(kit.Root(ev)) || kit.IsNilConst(kit.Root(kit.Res(r, 0))) {
 				return
 			}
 			why := ""
@@ -133,7 +133,7 @@ func runC06(c *kit.Ctx) {
 			if !ok || len(r.Results) != 2 {
 				return
 			}
-			k, isC := r.Results[1].(*ssa.Const)
+			k, isC := kit.Res(r, 1).(*ssa.Const)
 			if !isC || k.Value == nil || k.Value.ExactString() != "false" {
 				return
 			}
@@ -206,7 +206,7 @@ func runC06(c *kit.Ctx) {
 					if !ok || len(r.Results) != 3 {
 						return
 					}
-					if rc, ok := kit.Strip(r.Results[1]).(*ssa.Call); ok && strings.HasSuffix(kit.CalleeName(rc), ".Region") {
+					if rc, ok := kit.Strip(kit.Res(r, 1)).(*ssa.Call); ok && strings.HasSuffix(kit.CalleeName(rc), ".Region") {
 						recv := rc.Call.Args[0]
 						if fa, ok := recv.(*ssa.FieldAddr); ok {
 							recv = fa.X
